@@ -515,8 +515,17 @@ func genC06(out *caseWriter, seed uint64, n int, args []string) error {
 			j, cfg = genC06Ties(r, o)
 			cmd = "balance"
 		}
+		if i%8 == 2 {
+			// the same journals through `balance -v CHF -s <account>`: the per-commodity lines of an account whose
+			// commodities have exactly equal valuated totals (seeded change C06e-commodity-lines-by-weight ordered them
+			// by weight without reaching its tie-breaker; -v with -s was a flag pair no tie case used)
+			j, cfg = genC06WeightTies(r, o)
+			cmd = "balance"
+			cfg.Show = []string{pick(r, []string{"Portfolio", "^Assets", "Assets:Portfolio"})}
+			cfg.Alpha = false
+		}
 		runs := 8
-		if i%4 == 3 || i%8 == 6 {
+		if i%4 == 3 || i%8 == 6 || i%8 == 2 {
 			runs = 16
 		}
 		in := fmt.Sprintf("%s %d %d # %s | %s", cmd, runs, r.next()%1000000, cfg.Enc(), j.Enc())
